@@ -289,3 +289,92 @@ pub fn shrink_read_plan(p: &ReadPlan) -> Vec<ReadPlan> {
     }
     out
 }
+
+/// How a byte sink behaves: per-call short writes / EINTR and an optional hard failure once `fail_at`
+/// bytes have been accepted ("storage_full", "broken_pipe", "other", or "zero" = Ok(0) from there on).
+#[derive(Clone, Debug, Default, Serialize, Deserialize, PartialEq)]
+pub struct WritePlan {
+    pub steps: Vec<WriteStep>,
+    pub fail_at: Option<Cut>,
+}
+
+pub struct SimSink<'a> {
+    pub durable: Vec<u8>,
+    plan: &'a WritePlan,
+    idx: usize,
+    pub fired: WFired,
+}
+
+impl<'a> SimSink<'a> {
+    pub fn new(plan: &'a WritePlan) -> Self {
+        SimSink { durable: Vec::new(), plan, idx: 0, fired: WFired::default() }
+    }
+}
+
+impl<'a> io::Write for SimSink<'a> {
+    fn write(&mut self, buf: &[u8]) -> io::Result<usize> {
+        self.fired.calls += 1;
+        if buf.is_empty() {
+            return Ok(0);
+        }
+        let step = if self.idx < self.plan.steps.len() {
+            let s = self.plan.steps[self.idx].clone();
+            self.idx += 1;
+            s
+        } else {
+            WriteStep::Rest
+        };
+        if let WriteStep::Eintr = step {
+            self.fired.eintr += 1;
+            return Err(io::Error::from(io::ErrorKind::Interrupted));
+        }
+        let mut room = usize::MAX;
+        if let Some(c) = &self.plan.fail_at {
+            room = c.at.saturating_sub(self.durable.len());
+            if room == 0 {
+                if c.kind == "zero" {
+                    self.fired.zero += 1;
+                    return Ok(0);
+                }
+                self.fired.hard_error += 1;
+                let kind = match c.kind.as_str() {
+                    "broken_pipe" => io::ErrorKind::BrokenPipe,
+                    _ => io::ErrorKind::Other,
+                };
+                return Err(io::Error::new(kind, "simulated write failure"));
+            }
+        }
+        let n = match step {
+            WriteStep::Chunk(n) => n.max(1),
+            _ => usize::MAX,
+        };
+        let n = n.min(buf.len()).min(room);
+        if n < buf.len() {
+            self.fired.short_writes += 1;
+        }
+        self.durable.extend_from_slice(&buf[..n]);
+        Ok(n)
+    }
+    fn flush(&mut self) -> io::Result<()> {
+        self.fired.flushes += 1;
+        Ok(())
+    }
+}
+
+pub fn gen_write_plan(rng: &mut super::rng::Rng, len: usize, faulty: bool) -> WritePlan {
+    let mut steps = Vec::new();
+    if !rng.chance(1, 5) {
+        let n = 2 + rng.below(30);
+        let mut eintrs = 0;
+        for _ in 0..n {
+            if rng.chance(1, 8) && eintrs < 3 {
+                steps.push(WriteStep::Eintr);
+                eintrs += 1;
+            } else {
+                steps.push(WriteStep::Chunk(1 + rng.below(9)));
+            }
+        }
+    }
+    let fail_at = if faulty { Some(Cut { at: rng.below(len + 1), kind: rng.s(&["storage_full", "broken_pipe", "other", "zero"]).to_string() }) } else { None };
+    WritePlan { steps, fail_at }
+}
